@@ -170,3 +170,21 @@ Definition model_trip (reg : list mrow) (h : hrow) (i : pval) : option trip :=
     end
   | _ => None
   end.
+
+(* the same after a history of other operations of the requester (Model.ev) *)
+Definition model_trip_after (obj : Type) (structure : list N -> pval -> sres obj)
+                            (reg : list mrow) (h : hrow) (i : pval) (evs : list ev) : option trip :=
+  match helper_call reg st0 h i with
+  | (st, Sent has_id m (Some ty)) =>
+    match find_method reg m with
+    | Some r =>
+      Some (mk_trip m has_id ty
+                    (handle_branch (shape_of (TRegistryMsg r)))
+                    (match rt_get i (rtypes (fold_left (ev_step obj structure reg) evs st)) with
+                     | Some rt => rt
+                     | None => None
+                     end))
+    | None => None
+    end
+  | _ => None
+  end.
